@@ -18,6 +18,7 @@ import pydsdl
 from . import codec_engine as E
 from . import codec_ref as R
 from . import dsdlgen as G
+from . import c05_literals
 
 
 def const_expected(c):
@@ -374,7 +375,9 @@ def check_exports(ctx, ns, targets, model_bounds, bad):
 
 
 def run(ctx):
+    c05_literals.prepare(ctx)
     drv, sess, tally = E.common_setup(ctx, "C05")
+    c05_literals.run(ctx, E._DRIVERS.get(id(ctx)) or {})
     ctx.rule = ("per type: every exported constant of every target vs the PyDSDL model and the Lean `bounds`; serbuf of the zero value, a "
                 "maximal-length value and random values into buffers of every size 0..max+1 (sampled sizes when max > 48 bytes); up to K "
                 "variable-length arrays per type in turn over capacity (+1, roundup8(capacity), +1) into buffers of exactly the advertised "
